@@ -54,7 +54,7 @@ func (r *result) put(obs J) {
 func guard(f func() result) (res result) {
 	defer func() {
 		if r := recover(); r != nil {
-			res = result{Outcome: "panic", PanicVal: truncate(fmt.Sprint(r), 300), PanicAt: topRepoFrame()}
+			res = result{Outcome: "panic", PanicVal: truncate(fmt.Sprint(r), 600), PanicAt: topRepoFrame()}
 		}
 	}()
 	return f()
